@@ -126,8 +126,13 @@ def sub_tyx(case):
             continue
         lc = refs.autocorr(pix[k].astype(float), v)
         if abs(lc - 0.5) < 1e-6:
-            why = why or "lc_at_threshold"
-            continue
+            # On the threshold the side is decided by the library's own lag-1 correlation of this pixel (its accuracy is C15's
+            # business); what C04 demands is that the grid follows it - for this pixel, whatever its neighbours are.
+            lc_impl = float(ops.autocorr_1d(pix[k], nd))
+            if abs(lc_impl - lc) > 1e-9:
+                why = why or "lc_at_threshold"
+                continue
+            lc = lc_impl
         grid = smooth.LC_GRID_HI if lc > 0.5 else smooth.LC_GRID_LO
         w = _check_lopt("ws2doptvplc_tyx pixel %d (lag-1 r=%.4f)" % (k, lc), float(lopts[i, j]), grid, pix[k].astype(float), v, p)
         why = why or w
@@ -211,6 +216,18 @@ def cube_case(draw, accessor):
     ny, nx = draw(st.integers(1, 3)), draw(st.integers(1, 3))
     nt = draw(st.integers(5, 60))
     pix, val = [], []
+    if not accessor and draw(st.integers(0, 3)) == 0:
+        # pixels sitting exactly on the lag-1 = 0.5 threshold next to strongly autocorrelated ones
+        nt = 6
+        ny, nx = draw(st.integers(1, 4)), draw(st.integers(2, 4))
+        for q in range(ny * nx):
+            if draw(st.booleans()):
+                pix.append(draw(gens.exact_half_series()))
+            else:
+                a0, sl = draw(st.integers(-3000, 3000)), draw(st.integers(50, 400))
+                pix.append([a0 + sl * t + draw(st.integers(-5, 5)) for t in range(nt)])  # ramp: lag-1 close to 1
+            val.append([True] * nt)
+        return {"shape": [ny, nx], "pixels": pix, "valid": val, "nodata": -32768, "p": draw(gens.pvals), "exact_half": True}
     for _ in range(ny * nx):
         s = draw(gens.series(n=nt, classes=["seasonal", "walk", "iid", "step", "constant", "few_values"]))
         g = draw(gens.gap_mask(nt, min_valid=0 if draw(st.integers(0, 9)) == 0 else 2))
@@ -265,7 +282,7 @@ def run(ctx):
         why = sub_tyx(case)
         if why:
             rec.discard("tyx", why)
-        rec.case("tyx", case, nontrivial=True, cls="pixels=%d" % len(case["pixels"]))
+        rec.case("tyx", case, nontrivial=True, cls=["pixels=%d" % len(case["pixels"])] + (["exact_half_threshold"] if case.get("exact_half") else []))
 
     ctx.given("tyx", cube_case(False), ctx.n(120, 2000), fn=f_tyx)
 
